@@ -131,14 +131,48 @@ def w_cross(ctx, rng, i):
         if tx.is_alignment(t) and isinstance(t, _mt.Homogeneous) and rng.random() < 0.5:
             # an alignment handed a new target is the alignment its source, the new target and its options define
             import menpo.shape as _ms3
+            variant = ["plain", "plain", "unsigned_pixels", "far_from_the_origin"][rng.integers(0, 4)]
+            o0 = {k: getattr(t, k) for k in ("rotation", "allow_mirror") if k in t.__dict__}
+            far_scale = 1.0
+            if variant != "plain":
+                # the same alignment problem in another representation: unsigned pixel positions / map coordinates
+                sp_, tp_ = np.asarray(t.source.points, dtype=float), np.asarray(t.target.points, dtype=float)
+                with taps.quiet():
+                    if variant == "unsigned_pixels":
+                        lo_ = np.minimum(sp_.min(0), tp_.min(0)) - 3.0
+                        udt_ = [np.uint16, np.uint8, np.uint32][rng.integers(0, 3)]
+                        k_ = 2.0 if udt_ is np.uint8 else float(rng.uniform(3, 40))
+                        sp_, tp_ = np.round((sp_ - lo_) * k_ / 2.0), np.round((tp_ - lo_) * k_ / 2.0)
+                        if max(sp_.max(), tp_.max()) < np.iinfo(udt_).max - 8 and len(np.unique(sp_, axis=0)) == len(sp_):
+                            t = type(t)(_ms3.PointCloud(sp_.astype(udt_)), _ms3.PointCloud(tp_.astype(udt_)), **o0)
+                        else:
+                            variant = "plain"
+                    else:
+                        far_scale = 10.0 ** rng.uniform(4.5, 6.3) * tx.BOX
+                        off_ = rng.choice([-1.0, 1.0], d) * far_scale
+                        t = type(t)(_ms3.PointCloud(sp_ + off_), _ms3.PointCloud(tp_ + off_ + rng.uniform(-3, 3, d)), **o0)
+                ctx.bump("retargeted_alignments_in_" + variant)
             with taps.quiet():
-                t.set_target(_ms3.PointCloud(t.target.points + rng.normal(scale=0.5, size=t.target.points.shape)))
+                if variant == "unsigned_pixels":
+                    nt_ = np.asarray(t.target.points, dtype=np.int64) + rng.integers(-2, 3, t.target.points.shape)
+                    t.set_target(_ms3.PointCloud(np.clip(nt_, 0, None).astype(t.target.points.dtype)))
+                else:
+                    t.set_target(_ms3.PointCloud(t.target.points + rng.normal(scale=0.5, size=t.target.points.shape)))
+                if variant == "far_from_the_origin" and type(t).__name__ in ("AlignmentUniformScale", "AlignmentSimilarity"):
+                    # size is a property of the shape, wherever it lies: the aligned source has the size of the target
+                    al_ = np.asarray(t.aligned_source().points, dtype=float)
+                    tg_ = np.asarray(t.target.points, dtype=float)
+                    na_, nt2_ = float(np.linalg.norm(al_ - al_.mean(0))), float(np.linalg.norm(tg_ - tg_.mean(0)))
+                    ctx.bump("far_alignments_judged_by_size")
+                    if abs(na_ - nt2_) > 1e-7 * nt2_:
+                        ctx.fail("retargeted_alignment_moves_points_by_another_map_than_its_source_target_and_options_define", cls=type(t).__name__,
+                                 mech="far_from_the_origin:aligned_source_has_another_size_than_the_target", err=abs(na_ - nt2_) / nt2_)
                 o = {k: getattr(t, k) for k in ("rotation", "allow_mirror") if k in t.__dict__}
                 fresh = type(t)(t.source.copy(), t.target.copy(), **o)
-                pp = tx.probe(rng, d, 6)
+                pp = tx.probe(rng, d, 6) if variant == "plain" else np.asarray(t.source.points, dtype=float)[:6] + rng.uniform(-1, 1, (min(6, t.source.n_points), d))
                 e = tx.maxdiff(t.apply(pp), fresh.apply(pp))
             ctx.bump("retargeted_alignments_compared_with_a_fresh_one")
-            if not e <= 1e-8 * tx.BOX:
+            if not e <= 1e-8 * max(tx.BOX, far_scale * 1e-2, float(np.abs(np.asarray(t.target.points, dtype=float)).max())):
                 ctx.fail("retargeted_alignment_moves_points_by_another_map_than_its_source_target_and_options_define", cls=type(t).__name__,
                          mech="options:" + ",".join("%s=%s" % kv for kv in sorted(o.items())), err=e)
         else:
